@@ -357,7 +357,19 @@ func checkC12Clone(w *World, r *Report, cf *CtxFlow) {
 			if targets[x] {
 				return true, "the clone itself"
 			}
+			// a local cell (`params := ...; cp.params = &params`): everything stored into it must itself be fresh
+			if refs := x.Referrers(); refs != nil {
+				for _, ref := range *refs {
+					if st, ok := ref.(*ssa.Store); ok && st.Addr == ssa.Value(x) {
+						if okk, how := fresh(st.Val, depth+1); !okk {
+							return false, "local " + x.Comment + " holds " + how
+						}
+					}
+				}
+			}
 			return true, "fresh local " + x.Comment
+		case *ssa.Slice:
+			return fresh(x.X, depth+1)
 		case *ssa.MakeSlice, *ssa.MakeMap:
 			return true, "fresh"
 		case *ssa.MakeInterface:
@@ -372,9 +384,40 @@ func checkC12Clone(w *World, r *Report, cf *CtxFlow) {
 			}
 			return false, "address inside " + valStr(x.X)
 		case *ssa.Call:
+			// copying functions give fresh storage whatever they are handed; any other call is fresh only when none of its
+			// reference arguments aliases pooled storage (slices.Clip, a reslicing helper, ... return their argument)
+			if callee := x.Call.StaticCallee(); callee != nil {
+				full := callee.String()
+				for _, cpy := range []string{"(*net/http.Request).Clone", "(net/http.Header).Clone", "slices.Clone", "maps.Clone", "bytes.Clone", "strings.Clone"} {
+					if full == cpy || strings.HasPrefix(full, cpy+"[") {
+						return true, "copy made by " + full
+					}
+				}
+			}
+			if b, isBuiltin := x.Call.Value.(*ssa.Builtin); isBuiltin && b.Name() == "append" {
+				return fresh(x.Call.Args[0], depth+1)
+			}
+			args := x.Call.Args
+			if x.Call.IsInvoke() {
+				args = append([]ssa.Value{x.Call.Value}, args...)
+			}
+			for _, a := range args {
+				switch a.Type().Underlying().(type) {
+				case *types.Basic:
+					continue
+				}
+				if okk, how := fresh(a, depth+1); !okk {
+					return false, "result of " + valStr(x) + " may alias its argument: " + how
+				}
+			}
 			return true, "result of " + valStr(x)
 		case *ssa.UnOp:
 			if x.Op == token.MUL {
+				if ld, isLoad := x.X.(*ssa.UnOp); isLoad && ld.Op == token.MUL {
+					if b, f, ok := fieldOfAddr(ld.X); ok && b == recv {
+						return false, "the buffer behind the receiver's " + f.Name()
+					}
+				}
 				if b, f, ok := fieldOfAddr(x.X); ok && b == recv {
 					if immutable[f.Name()] {
 						return true, "immutable value c." + f.Name()
